@@ -56,7 +56,7 @@ type transport struct {
 	startOnce  sync.Once
 	stopCh     chan struct{}
 
-	// Filled in right before stopCh is closed.
+	// Filled in right before stopCh is closed (inside closeOnce).
 	stopErr error
 }
 
@@ -96,7 +96,17 @@ func NewTransport(c net.Conn, l LogFactory, instrumenterStorage NetworkInstrumen
 }
 
 func (t *transport) Close() {
+	t.closeWithErr(io.EOF)
+}
+
+// closeWithErr closes the transport, recording err as the value err()
+// returns from then on. Only the first call has any effect.
+func (t *transport) closeWithErr(err error) {
 	t.closeOnce.Do(func() {
+		// This must happen before stopCh is closed to have a correct
+		// ordering.
+		t.stopErr = err
+
 		// Since the receiver might require the transport, we have to
 		// close it before terminating our loops
 		close(t.stopCh)
@@ -156,11 +166,7 @@ func (t *transport) receiveFramesLoop() {
 	// Log packetizer completion
 	t.log.TransportError(err)
 
-	// This must happen before stopCh is closed to have a correct
-	// ordering.
-	t.stopErr = err
-
-	t.Close()
+	t.closeWithErr(err)
 }
 
 func (t *transport) getDispatcher() (dispatcher, error) {
